@@ -16,6 +16,23 @@ pub fn mk_rule(n: &str, s: i64) -> Rule {
 pub struct KB {
     kb: KnowledgeBase,
     names: Vec<String>,
+    orig: Vec<(String, i64)>, // (name, spec salience) of every successful add
+    extreme: bool, // order-preserving relabelling of the saliences: negative -> i32::MIN, above 1 -> i32::MAX
+}
+
+fn sal_in(extreme: bool, s: i64) -> i64 {
+    if !extreme { s } else if s < 0 { i32::MIN as i64 } else if s > 1 { i32::MAX as i64 } else { s }
+}
+fn sal_out(extreme: bool, orig: &[(String, i64)], name: &str, s: i32) -> i64 {
+    // report the spec's own label when the stored salience is the image of the label the rule was added with
+    if extreme {
+        if let Some((_, o)) = orig.iter().rev().find(|(n, _)| n == name) {
+            if sal_in(true, *o) == s as i64 {
+                return *o;
+            }
+        }
+    }
+    s as i64
 }
 
 impl KB {
@@ -24,15 +41,16 @@ impl KB {
             Some(a) => a.iter().map(|x| x.as_str().unwrap().to_string()).collect(),
             None => vec!["a".into(), "b".into(), "c".into()],
         };
-        KB { kb: KnowledgeBase::new("kb"), names }
+        KB { kb: KnowledgeBase::new("kb"), names, extreme: cfg["extreme"].as_bool().unwrap_or(false), orig: vec![] }
     }
     fn obs(&self, ok: bool, dv: u64) -> Value {
         let rules = self.kb.get_rules();
-        let list: Vec<Value> = rules.iter().map(|r| json!({"n": r.name, "s": r.salience, "e": r.enabled})).collect();
+        let so = |n: &str, s: i32| sal_out(self.extreme, &self.orig, n, s);
+        let list: Vec<Value> = rules.iter().map(|r| json!({"n": r.name, "s": so(&r.name, r.salience), "e": r.enabled})).collect();
         let mut get = Map::new();
         for n in &self.names {
             let g = match self.kb.get_rule(n) {
-                Some(r) if r.name == *n => json!({"present": true, "s": r.salience, "e": r.enabled}),
+                Some(r) if r.name == *n => json!({"present": true, "s": so(&r.name, r.salience), "e": r.enabled}),
                 Some(r) => json!({"present": true, "wrong_rule_returned": r.name}),
                 None => json!({"present": false, "s": 0, "e": false}),
             };
@@ -69,7 +87,16 @@ impl Model for KB {
         let v0 = self.kb.version();
         let n = l["n"].as_str().unwrap_or("");
         let ok = match l["op"].as_str().unwrap() {
-            "add" => self.kb.add_rule(mk_rule(n, l["s"].as_i64().unwrap())).is_ok(),
+            "add" => {
+                let s = l["s"].as_i64().unwrap();
+                let mut r = mk_rule(n, s);
+                r.salience = sal_in(self.extreme, s) as i32;
+                let ok = self.kb.add_rule(r).is_ok();
+                if ok {
+                    self.orig.push((n.to_string(), s));
+                }
+                ok
+            }
             "remove" => self.kb.remove_rule(n).unwrap_or(false),
             "enable" => self.kb.set_rule_enabled(n, l["b"].as_bool().unwrap()).unwrap_or(false),
             "clear" => {
@@ -87,7 +114,7 @@ impl Model for KB {
 // Concurrent histories for linearizability checking (L3).
 
 /// One history: 3 threads x `per` ops on one KnowledgeBase; invocation/response stamped by a global counter.
-fn one_history(rng: &mut Rng, threads: usize, per: usize, names: &[&str], sals: &[i64]) -> Option<Value> {
+fn one_history(rng: &mut Rng, threads: usize, per: usize, names: &[&str], sals: &[i64], family: usize) -> Option<Value> {
     let kb = Arc::new(KnowledgeBase::new("c"));
     // a short sequential prefix so that removes/lookups have something to act on
     let mut pre = vec![];
@@ -102,17 +129,29 @@ fn one_history(rng: &mut Rng, threads: usize, per: usize, names: &[&str], sals: 
     let clock = Arc::new(AtomicU64::new(1));
     let bar = Arc::new(Barrier::new(threads));
     let mut progs: Vec<Vec<Value>> = vec![];
-    for _ in 0..threads {
+    for t in 0..threads {
         let mut p = vec![];
-        for _ in 0..per {
+        for k in 0..per {
             let n = names[rng.below(names.len())];
             let s = sals[rng.below(sals.len())];
-            p.push(match rng.below(10) {
+            // family 1: one thread alternates add / clear while the others mostly add and remove (contention on clear);
+            // family 2: all threads add / remove / look up the same name
+            if family == 1 && t == 0 {
+                p.push(if k % 2 == 0 { json!({"op": "add", "n": n, "s": s}) } else { json!({"op": "clear"}) });
+                continue;
+            }
+            if family == 1 {
+                p.push(match rng.below(6) { 0..=3 => json!({"op": "add", "n": n, "s": s}), 4 => json!({"op": "remove", "n": n}), _ => json!({"op": "get", "n": n}) });
+                continue;
+            }
+            let n = if family == 2 { names[0] } else { n };
+            p.push(match rng.below(11) {
                 0..=3 => json!({"op": "add", "n": n, "s": s}),
                 4..=5 => json!({"op": "remove", "n": n}),
                 6 => json!({"op": "enable", "n": n, "b": rng.chance(1, 2)}),
                 7 => json!({"op": "get", "n": n}),
                 8 => json!({"op": "list"}),
+                9 => json!({"op": "clear"}),
                 _ => json!({"op": "count"}),
             });
         }
@@ -135,7 +174,10 @@ fn one_history(rng: &mut Rng, threads: usize, per: usize, names: &[&str], sals: 
             for mut op in prog {
                 let inv = clock.fetch_add(1, Ordering::SeqCst);
                 let n = op["n"].as_str().unwrap_or("").to_string();
-                let res = match op["op"].as_str().unwrap() {
+                let kb2 = kb.clone();
+                let op2 = op.clone();
+                let res = std::panic::catch_unwind(std::panic::AssertUnwindSafe(move || { let kb = kb2; let op = op2; match op["op"].as_str().unwrap() {
+                    "clear" => { kb.clear(); json!({"ok": true}) }
                     "add" => json!({"ok": kb.add_rule(mk_rule(&n, op["s"].as_i64().unwrap())).is_ok()}),
                     "remove" => json!({"ok": kb.remove_rule(&n).unwrap_or(false)}),
                     "enable" => json!({"ok": kb.set_rule_enabled(&n, op["b"].as_bool().unwrap()).unwrap_or(false)}),
@@ -145,7 +187,7 @@ fn one_history(rng: &mut Rng, threads: usize, per: usize, names: &[&str], sals: 
                     },
                     "list" => json!({"ok": true, "names": kb.get_rules().iter().map(|r| json!({"n": r.name, "s": r.salience, "e": r.enabled})).collect::<Vec<_>>()}),
                     _ => json!({"ok": true, "count": kb.rule_count()}),
-                };
+                }})).unwrap_or_else(|e| json!({"ok": false, "panic": crate::core::panic_msg(e)}));
                 let resp = clock.fetch_add(1, Ordering::SeqCst);
                 op["th"] = json!(t + 1);
                 op["inv"] = json!(inv);
@@ -170,8 +212,23 @@ fn one_history(rng: &mut Rng, threads: usize, per: usize, names: &[&str], sals: 
         let _ = h.join();
     }
     ops.sort_by_key(|o| o["inv"].as_u64().unwrap());
-    let fin: Vec<Value> = kb.get_rules().iter().map(|r| json!({"n": r.name, "s": r.salience, "e": r.enabled})).collect();
-    Some(json!({"pre": pre, "init": init, "ops": ops, "final": fin, "dv": kb.version() - v0}))
+    // quiescent read-back: the listing, and a lookup of every name (a poisoned lock after a panic in the code under test is data)
+    let kbq = kb.clone();
+    let names_v: Vec<String> = names.iter().map(|s| s.to_string()).collect();
+    let q = std::panic::catch_unwind(std::panic::AssertUnwindSafe(move || {
+        let fin: Vec<Value> = kbq.get_rules().iter().map(|r| json!({"n": r.name, "s": r.salience, "e": r.enabled})).collect();
+        let fget: Vec<Value> = names_v.iter().map(|n| match kbq.get_rule(n) {
+            Some(r) => json!({"n": n, "ok": r.name == *n, "rs": r.salience, "re": r.enabled}),
+            None => json!({"n": n, "ok": false, "rs": 0, "re": false}),
+        }).collect();
+        (fin, fget, kbq.rule_count(), kbq.version())
+    }));
+    let (fin, fget, count, v1) = match q {
+        Ok(x) => x,
+        Err(e) => return Some(json!({"pre": pre, "init": init, "ops": ops, "final": [], "fget": [], "fcount": -1, "dv": 0, "family": family,
+                                     "panic_at_quiescence": crate::core::panic_msg(e)})),
+    };
+    Some(json!({"pre": pre, "init": init, "ops": ops, "final": fin, "fget": fget, "fcount": count, "dv": v1 - v0, "family": family}))
 }
 
 /// `vh kbstress --n N --seed S --out F`: writes one history per line; a hung history is written as {"hung":..}
@@ -186,8 +243,12 @@ pub fn cmd_stress(args: &crate::core::Args) -> i32 {
     let sals = [-1i64, 0, 5];
     let mut hung = 0;
     let mut overlapping = 0u64;
+    // --screen 1: run the histories but write only those whose quiescent read-back is incoherent in itself (a listed rule
+    // that a lookup does not find, a name listed twice, a count that differs from the listing) or that saw a panic
+    let screen = args.u64("screen", 0) == 1;
+    let mut written = 0u64;
     for i in 0..n {
-        match one_history(&mut rng, threads, per, &names, &sals) {
+        match one_history(&mut rng, threads, per, &names, &sals, (i % 3) as usize) {
             Some(h) => {
                 // count histories with real concurrency (some op invoked before another thread's op responded)
                 let ops = h["ops"].as_array().unwrap();
@@ -195,6 +256,24 @@ pub fn cmd_stress(args: &crate::core::Args) -> i32 {
                 if conc {
                     overlapping += 1;
                 }
+                if screen {
+                    let fin = h["final"].as_array().unwrap();
+                    let fget = h["fget"].as_array().unwrap();
+                    let mut coherent = h.get("panic_at_quiescence").is_none() && h["fcount"].as_i64() == Some(fin.len() as i64);
+                    for g in fget {
+                        let listed: Vec<&Value> = fin.iter().filter(|r| r["n"] == g["n"]).collect();
+                        coherent &= match listed.len() {
+                            0 => g["ok"] == false,
+                            1 => g["ok"] == true && g["rs"] == listed[0]["s"] && g["re"] == listed[0]["e"],
+                            _ => false,
+                        };
+                    }
+                    coherent &= !h["ops"].as_array().unwrap().iter().any(|o| o["r"].get("panic").is_some());
+                    if coherent {
+                        continue;
+                    }
+                }
+                written += 1;
                 writeln!(f, "{}", h).unwrap();
             }
             None => {
@@ -203,6 +282,6 @@ pub fn cmd_stress(args: &crate::core::Args) -> i32 {
             }
         }
     }
-    println!("{}", json!({"histories": n, "hung": hung, "overlapping": overlapping}));
+    println!("{}", json!({"histories": n, "hung": hung, "overlapping": overlapping, "written": written}));
     0
 }
